@@ -68,10 +68,10 @@ def eager_plan(w, gs):
     Vertex.NEIGHBOR_CACHING = False
     try:
         from . import probes as P
-        return [w.n_obj(v) for v in lst(w.o(gs["u"]) if gs["u"] else None, w.o(gs["s"]), direction_sensitive=gs["d"],
-                                        unknown_handling=gs["unk"], ff_via=P.mk_filter(w, gs.get("fv", NOF), 2), ff_result=fr)]
-    except Exception:       # noqa: BLE001
-        return None
+        # (through the probes' watchdog: a list form that loops must not stop the check)
+        r = P.call(lambda: [w.n_obj(v) for v in lst(w.o(gs["u"]) if gs["u"] else None, w.o(gs["s"]), direction_sensitive=gs["d"],
+                                                    unknown_handling=gs["unk"], ff_via=P.mk_filter(w, gs.get("fv", NOF), 2), ff_result=fr)])
+        return None if r["err"] else r["out"]
     finally:
         Vertex.NEIGHBOR_CACHING = flag
 
